@@ -445,6 +445,20 @@ func genCase(o opts) func(rt *rapid.T) Case {
 		case "ws-long":
 			r.Indent = "\n" + strings.Repeat(" ", rapid.SampledFrom([]int{100, 127, 128, 129, 300, 600}).Draw(rt, "indent.long"))
 		}
+		if o.ext == "ws-in-tags" {
+			// white space where XML allows it inside tags (XML 1.0: STag ::= '<' Name (S Attribute)* S? '>', Eq ::= S? '=' S?)
+			sp := func(l string) string { return rapid.SampledFrom([]string{"", " ", "\n", "  ", "\n  "}).Draw(rt, l) }
+			switch rapid.IntRange(0, 3).Draw(rt, "wsin") {
+			case 0:
+				r.WSClose = rapid.SampledFrom([]string{" ", "\n", "   "}).Draw(rt, "wsclose")
+			case 1:
+				r.WSEq = [2]string{sp("eq0"), sp("eq1")}
+			case 2:
+				r.WSName = rapid.SampledFrom([]string{" ", "\n"}).Draw(rt, "wsname")
+			default:
+				r.WSClose, r.WSEq, r.WSName = sp("c"), [2]string{sp("e0"), sp("e1")}, sp("n")
+			}
+		}
 		if rapid.Bool().Draw(rt, "junk") {
 			r.Junk = rapid.SampledFrom([]string{"\xef\xbb\xbf", "garbage before the packet \x00\x01\x02 ", strings.Repeat("J", 2000), "<?xml version=\"1.0\"?>\n", "<<<>x:xmp "}).Draw(rt, "junkv")
 		}
@@ -574,7 +588,7 @@ func seq(n int) []int {
 
 var chk = pbt.Check[Case]{Name: "xmp-roundtrip", Gen: genCase(opts{}), Eval: eval}
 var chkOver = pbt.Check[Case]{Name: "xmp-overlong-token", Gen: genCase(opts{over: true}), Eval: eval}
-var exts = []string{"ws-tab", "ws-cr", "ws-long", "rating-negative", "entities"}
+var exts = []string{"ws-tab", "ws-cr", "ws-long", "rating-negative", "entities", "ws-in-tags"}
 var chkExt = map[string]pbt.Check[Case]{}
 
 func init() {
